@@ -16,6 +16,7 @@ pub mod c12;
 pub mod c13;
 pub mod c14;
 pub mod c15;
+pub mod c16;
 pub mod c17;
 pub mod c18;
 pub mod common;
@@ -39,6 +40,7 @@ pub fn clauses(property: &str) -> Vec<Clause> {
         "C13" => c13::clauses(),
         "C14" => c14::clauses(),
         "C15" => c15::clauses(),
+        "C16" => c16::clauses(),
         "C17" => c17::clauses(),
         "C18" => c18::clauses(),
         _ => vec![],
@@ -49,6 +51,7 @@ pub fn property_rule(property: &str) -> String {
     match property {
         "C01" => "composed chain vs stand-alone inner + stand-alone wrapper over Echo (bit-identical), Probe leaves for exactly-once in-order delivery, combining nodes present iff both children".into(),
         "C18" => "live heap bytes owned by a view (counting allocator) at stream lengths L, 4L, 16L over seven stream classes; bound in the window lengths".into(),
+        "C16" => "the crate's generic code at f64 / f32 vs at the exact rational scalar on envelope streams (full runs, long runs with suffix checkpoints) and on flat-after-volatile tails".into(),
         "C17" => "twins, repeated last(), clones with same and divergent continuations; bit-exact".into(),
         "C02" => "windowed view run in exact arithmetic (and f64) vs the batch definition over exactly the last N raw values, every step".into(),
         "C03" => "two runs of the same view on histories with different prefixes and a common suffix agree once K suffix values are consumed".into(),
@@ -82,6 +85,11 @@ pub fn property_assumptions(property: &str) -> Vec<String> {
         "C18" => {
             v.push("the vcheck binary installs a counting global allocator; readings are per thread, the view is built, driven and dropped on one thread and the measuring loop allocates nothing itself".into());
             v.push("'for ever' is explored to 16 L values (L = 8 sum(N) + 256; thorough 8 x that)".into());
+        }
+        "C16" => {
+            v.push("'natural scale' S: largest input magnitude for value-like outputs (N x that for Cumulative), width of the documented range for bounded indicators ((N-1) for CoG, 2(N-1)/sqrt(N) for Vsct, 10 for TrendFlex/ReFlex), max(1, |exact|) for the unbounded ratios Vst, Roc, LnReturn".into());
+            v.push("long-stream checkpoints rely on C03 (finite memory): the exact answer after 1e6 values is that of a fresh exact instance fed the last K+N values".into());
+            v.push("exact runs of the recursive views use 320-bit floating rounding of the exact scalar after ~100 steps (error ~1e-90 on contractive recursions)".into());
         }
         "C17" => v.push("a tree containing Add cannot be cloned (Add does not implement Clone): the clone clause is skipped for it and counted".into()),
         "C02" => {
